@@ -112,6 +112,7 @@ class Model:
         self.classes = {}
         self.parse_errors = []
         self.inlined = {}
+        self.moved = {}
         self._load()
 
     # ------------------------------------------------------------------ loading
@@ -152,6 +153,16 @@ class Model:
                             if done:
                                 self.inlined[name] = done
                             tree = canonicalise(raw)
+                            # second look: the normal form can expose calls of extracted helpers the raw text hid (a callee chosen by a
+                            # conditional expression, a call behind a single-use temporary)
+                            try:
+                                again = inline_new_helpers(tree, name)
+                            except Exception as e:
+                                again = []
+                                self.parse_errors.append(f'{rel}: second helper expansion skipped ({type(e).__name__}: {e})')
+                            if again:
+                                self.inlined[name] = self.inlined.get(name, []) + again
+                                tree = canonicalise(tree)
                         else:
                             py, side = pyxfront.rewrite(src, rel)
                             tree = canonicalise(_flatten_cdef(ast.parse(py, filename=rel)), second_stage=False)
@@ -163,7 +174,25 @@ class Model:
             self._index(m)
         for c in self.classes.values():
             c.bases = [self.resolve(c.module, b) or ast.unparse(b) for b in c.node.bases]
+        self._register_moved()
         self._positionalise_calls()
+
+    def _register_moved(self):
+        """N13: a function of the reference symbol table that is gone from its place but whose old name is still bound there to a
+        function defined elsewhere (NAME = new_function, `from x import new as NAME`, NAME = Class.method) was MOVED: the rules keep
+        addressing it by its reference name."""
+        from .inline import known_symbols
+        try:
+            known = known_symbols()
+        except Exception:
+            return
+        for k in sorted(known):
+            if k in self.functions or '<locals>' in k or '.' not in k:
+                continue
+            c = self.canonical(k)
+            if c != k and c in self.functions and c not in known:
+                self.functions[k] = self.functions[c]
+                self.moved[c] = k
 
     def _positionalise_calls(self):
         """Canonical argument form (R-2): for calls that resolve to a package function, keyword arguments naming the
@@ -286,6 +315,12 @@ class Model:
             if cand in self.functions or cand in self.classes or cand in self.modules:
                 return cand
             if attr in m.assigns:
+                v = m.assigns[attr]
+                if isinstance(v, (ast.Name, ast.Attribute)) and _depth < 8:
+                    # NAME = other_function / other.module.function : an alias, follow it
+                    tgt = self.resolve(m, v, _depth=_depth + 1)
+                    if tgt and tgt != cand and (tgt in self.functions or tgt in self.classes):
+                        return tgt
                 return cand
             if attr in m.imports:
                 return self.canonical(m.imports[attr], _depth + 1)
@@ -296,8 +331,13 @@ class Model:
             return f'{head_c}.{attr}'
         return dotted
 
-    def resolve(self, module, expr):
-        """Resolve a Name / Attribute chain in `module` to a canonical dotted name, or None."""
+    def resolve(self, module, expr, _depth=0):
+        """Resolve a Name / Attribute chain in `module` to a canonical dotted name, or None.  A function of the reference tree that
+        was moved to another module / class and left behind as an alias keeps its reference name (self.moved)."""
+        r = self._resolve(module, expr, _depth)
+        return self.moved.get(r, r)
+
+    def _resolve(self, module, expr, _depth=0):
         parts = []
         node = expr
         while isinstance(node, ast.Attribute):
@@ -315,7 +355,7 @@ class Model:
         else:
             return None
         dotted = '.'.join([base] + parts[1:])
-        return self.canonical(dotted)
+        return self.canonical(dotted, _depth)
 
     def resolve_call(self, fi, call):
         """Dotted callee of a Call node inside function fi (module-level resolution + self/cls through the MRO)."""
